@@ -1039,7 +1039,7 @@ class Variable(CanBehaveLikeAVariable[T]):
             # (of a comparison, a predicate, ...) a falsy value like 0, "" or None is a value like any other.
             is_false = False
             if (
-                isinstance(self._parent_, LogicalBinaryOperator)
+                isinstance(self._parent_, LogicalOperator)
                 or self._is_the_condition_of_its_parent_
             ):
                 is_false = not bool(sources[self._id_])
